@@ -84,16 +84,15 @@ theorem copy_fails_with_old_setstate :
 
 /-- **C17 (copy_isomorphic).**  After a successful copy the object at `N + i` is the image of object
 `i` under the renaming `o ↦ N + o`, `c ↦ M + c`: same class, parameter values, per-instance Parameter
-copies (bounds, constant; the `_objects` / `names` containers of Selector copies renamed like every other
-list), ordinary attributes and recorded dynamic watchers — equal up to the id bijection — and list `M + c` has the contents of list `c`.  (The `watchers` table is what
+copies (bounds, constant; the `_objects` / `names` containers of Selector copies and the watchers of Parameter
+attributes renamed like everything else), ordinary attributes and recorded dynamic watchers — equal up to the id bijection — and list `M + c` has the contents of list `c`.  (The `watchers` table is what
 `__setstate__` rewrites; see `Rebound` in Store/CopyLemmas.lean.) -/
 theorem copy_isomorphic (pol : Policy) (w w' : World) (root r' : Nat)
     (h : copyGraph pol w root = .ok (w', r')) :
     r' = w.objs.length + root ∧
     (∀ (i : Nat) (ob : Obj), w.objs[i]? = some ob →
       ∃ ob', w'.objs[w.objs.length + i]? = some ob' ∧ ob'.cls = ob.cls ∧
-        ob'.pcopies = ob.pcopies.map (fun kv => (kv.1, { kv.2 with slots := kv.2.slots.map fun s =>
-          (w.cells.length + s.1, w.cells.length + s.2) })) ∧
+        ob'.pcopies = ob.pcopies.map (fun kv => (kv.1, renPCopy w.objs.length w.cells.length w.nextPid kv.2)) ∧
         ob'.values = ob.values.map (fun kv => (kv.1, renVal w.objs.length w.cells.length kv.2)) ∧
         ob'.attrs = ob.attrs.map (fun kv => (kv.1, renVal w.objs.length w.cells.length kv.2)) ∧
         ob'.dyn = ob.dyn.map (fun kv => (kv.1, kv.2.map (renWatcher w.objs.length w.nextPid)))) ∧
@@ -196,12 +195,12 @@ theorem dependencies_act_on_original_only (pol : Policy) (w w' w'' : World) (roo
   have hc : Closed w' (fun o => o < w.objs.length) (fun c => c < w.cells.length ∨ w'.cells.length ≤ c) := by
     intro i ob hi hob
     have r := hlow i ob hi hob
-    refine ⟨fun kv hkv => ?_, fun kv hkv => ?_, r.watchers, r.dyn, fun kv hkv s hs => ?_⟩
+    refine ⟨fun kv hkv => ?_, fun kv hkv => ?_, r.watchers, r.dyn, fun kv hkv => ⟨fun s hs => ?_, (r.pcopies kv hkv).2⟩⟩
     · have := r.values kv hkv
       cases hv : kv.2 <;> simp_all [Val.inSets]
     · have := r.attrs kv hkv
       cases hv : kv.2 <;> simp_all [Val.inSets]
-    · exact ⟨Or.inl (r.pcopies kv hkv s hs).1, Or.inl (r.pcopies kv hkv s hs).2⟩
+    · exact ⟨Or.inl ((r.pcopies kv hkv).1 s hs).1, Or.inl ((r.pcopies kv hkv).1 s hs).2⟩
   have g := run_good ops w' w'' hc (fun n hn => Or.inr hn) hops hrun
   exact ⟨g.loc.logPrefix, fun i hi => g.loc.objsFrame i (by simp; exact hi),
          fun c hc1 hc2 => g.loc.cellsFrame c (by simp; omega)⟩
